@@ -193,15 +193,30 @@ func (s *Sched) RunFree(limit time.Duration) bool {
 	close(start)
 	done := make(chan struct{})
 	go func() { wg.Wait(); close(done) }()
-	select {
-	case <-done:
-	case <-time.After(limit):
+	// A hang is reported only when NO task made progress (the logical clock stood still) for a whole
+	// window of the given length. Total elapsed time is not a signal: on a loaded machine a program
+	// of a few milliseconds can take longer than any fixed limit (DESIGN.md §14, alarm 17).
+	last, lastMove, began := -1, time.Now(), time.Now()
+	for {
+		select {
+		case <-done:
+			return s.Panic == ""
+		case <-time.After(limit / 10):
+		}
 		s.mu.Lock()
-		s.Hang = fmt.Sprintf("the tasks did not all finish within %s under real parallelism (deadlock, or a task died holding a latch) ", limit)
+		now := s.clock
 		s.mu.Unlock()
-		return false
+		if now != last {
+			last, lastMove = now, time.Now()
+			continue
+		}
+		if time.Since(lastMove) >= limit {
+			s.mu.Lock()
+			s.Hang = fmt.Sprintf("no task made progress for %s under real parallelism (%s after the start; deadlock, or a task died holding a latch) ", limit, time.Since(began).Round(time.Second))
+			s.mu.Unlock()
+			return false
+		}
 	}
-	return s.Panic == ""
 }
 
 // Run executes all tasks to completion under the schedule source. It returns
